@@ -254,7 +254,34 @@ async fn scenario(sim: Arc<Sim>, unit: Value) -> Obs {
     let calls: Vec<Abandon> = unit["abandons"].as_array().unwrap().iter().map(parse_abandon).collect();
     sim.fabric.set_fate_window(0, unit["fate_budget"].as_u64().unwrap_or(0) as usize);
     let mut abandoned = vec![];
+    if let Some(order) = unit["overlap_order"].as_array() {
+        // all calls are in flight at once (more than the stream limit: some hold a stream, one
+        // waits for stream credit, the rest wait behind it), then they are given up in the
+        // order of the unit, 1 ms apart
+        let n = order.len();
+        let mut tasks = vec![];
+        for i in 0..n {
+            let id = format!("x{i}");
+            let spec = RpcSpec::new(&id).route("/x").body(pattern_body(i as u64, body_len)).header("never", "1");
+            let (sim2, c2, to2) = (sim.clone(), caller.clone(), callee.peer_id());
+            tasks.push(Some(tokio::spawn(async move { do_rpc(&sim2, &c2, to2, &spec).await })));
+            tokio::time::sleep(std::time::Duration::from_micros(200)).await;
+        }
+        tokio::time::sleep(ms(20)).await;
+        for k in order {
+            let k = k.as_u64().unwrap() as usize;
+            let t = tasks[k].take().unwrap();
+            t.abort();
+            let _ = t.await;
+            o.log.push(format!("call x{k} given up at {}us", sim.now_us()));
+            abandoned.push((format!("x{k}"), sim.now_us(), false));
+            tokio::time::sleep(ms(1)).await;
+        }
+    }
     for (i, how) in calls.iter().enumerate() {
+        if unit["overlap_order"].is_array() {
+            break;
+        }
         let id = format!("x{i}");
         let mut spec = RpcSpec::new(&id).route("/x").body(pattern_body(i as u64, body_len));
         if let Some(n) = unit["resp_len"].as_u64() {
@@ -397,7 +424,7 @@ impl Check for C12 {
         CheckMeta {
             property: "C12",
             level: "fault_enumeration",
-            rule: "abandon point enumeration: the caller's future is dropped never-polled, after its first poll, after every n-th datagram it sends (small request and a 200 KiB multi-flight request), at every 500 us instant up to completion, and at offsets after the remote handler started; handler instant / 10 ms / never; both call directions; plus histories of 3 x limit abandoned calls with max_concurrent_bidi_streams in {2,4} and 300 with the default 100; the histories also with anemo-tower's per-peer in-flight limit (3, Block and ReturnError) around the services, and with a one-request-at-a-time service (poll_ready backpressure) occupied by the sibling so that the abandoned calls wait for the service; each with a never-abandoned sibling RPC in flight and a fresh RPC afterwards; plus an early call abandoned only after 3 - 230 further calls came and went on its connection (fewer / more than the stream limit), next to a call started exactly one limit later; datagram fates within the deviation bound; distinct = distinct (handlers started, calls finished before the abandon)".into(),
+            rule: "abandon point enumeration: the caller's future is dropped never-polled, after its first poll, after every n-th datagram it sends (small request and a 200 KiB multi-flight request), at every 500 us instant up to completion, and at offsets after the remote handler started; handler instant / 10 ms / never; both call directions; plus histories of 3 x limit abandoned calls with max_concurrent_bidi_streams in {2,4} and 300 with the default 100; the histories also with anemo-tower's per-peer in-flight limit (3, Block and ReturnError) around the services, and with a one-request-at-a-time service (poll_ready backpressure) occupied by the sibling so that the abandoned calls wait for the service; each with a never-abandoned sibling RPC in flight and a fresh RPC afterwards; plus (stream limit + 3) calls in flight at once (some served, one waiting for stream credit, the rest behind it) given up in every order (limit 2: all 120 orders; 3: all 720 in the thorough tier; 4: a spread of orders); plus an early call abandoned only after 3 - 230 further calls came and went on its connection (fewer / more than the stream limit), next to a call started exactly one limit later; datagram fates within the deviation bound; distinct = distinct (handlers started, calls finished before the abandon)".into(),
             assumptions: vec!["prompt = one-way latency + 2 ms of virtual time without injected faults; with an injected fault the cancellation may need a retransmission (3.5 s allowed)".into()],
             exhaustive: true,
         }
@@ -473,6 +500,24 @@ impl Check for C12 {
                             u.push(json!({"kind":"history","reverse":reverse,"bidi_limit":limit,"handler":"never","body_len":64,"abandons":abandons,"spacing_us":30_000,"bound":0,"fate_budget":0,"tower":tower}));
                         }
                     }
+                }
+            }
+        }
+        // overlapping calls (stream limit + 3 at once) given up in every order
+        for (limit, k) in [(2u64, 5usize), (3, 6), (4, 7)] {
+            let perms = crate::explore::permutations(k);
+            for (pi, p) in perms.iter().enumerate() {
+                let keep = match (tier, k) {
+                    (_, 5) => true,
+                    (Tier::Thorough, 6) => true,
+                    // a spread of orders incl. forward, reverse
+                    _ => pi % 97 == 0 || pi + 1 == perms.len(),
+                };
+                if !keep {
+                    continue;
+                }
+                for reverse in [false, true] {
+                    u.push(json!({"kind":"history","reverse":reverse,"bidi_limit":limit,"handler":"never","body_len":64,"abandons":[],"overlap_order":p,"bound":0,"fate_budget":0}));
                 }
             }
         }
